@@ -395,7 +395,7 @@ func (c *ctxT) multiSession(rnd *common.Rand, caseNo int) {
 				kind := map[string]string{"enc": "note", "iq": "iq"}[entry]
 				cl = bigCall(entry, kind, mk, 150+rnd.Intn(700))
 			} else {
-				cl = withMarker(call{entry: "send", form: "reader", toks: genElement(rnd, 0, true, 2000+rnd.Intn(8000))}, mk)
+				cl = withMarker(noForeign(cfg, call{entry: "send", form: "reader", toks: genElement(rnd, 0, true, 2000+rnd.Intn(8000))}), mk)
 			}
 			jobs[i] = append(jobs[i], &job{cl: cl, mk: mk})
 		}
